@@ -211,6 +211,28 @@ func c01ReadyTable(e *Env, s *Sched, withReturn bool) {
 		}
 		r.Check(okAll, cons, pos, why, e.FactsStr("edge conditions: ", lits))
 	}
+	// the accumulator may be kept the other way round: `blocked := false … blocked = true …
+	// return !blocked` - it starts false, only ever becomes true, and the answer is its negation
+	inverted := false
+	if !counting {
+		startsFalse := false
+		for k, ed := range acc.Edges {
+			if !loop.Blocks[loop.Header.Preds[k]] {
+				if b, ok := ir.ConstBool(ed); ok && !b {
+					startsFalse = true
+				}
+			}
+		}
+		if startsFalse {
+			for _, rt := range rets {
+				if len(rt.Results) == 1 {
+					if u, isU := ir.Resolve(rt.Results[0]).(*ssa.UnOp); isU && u.Op == token.NOT && ir.Resolve(u.X) == ssa.Value(acc) {
+						inverted = true
+					}
+				}
+			}
+		}
+	}
 	seenPhi := map[*ssa.Phi]bool{}
 	walk = func(v ssa.Value, blk *ssa.BasicBlock, k int, depth int) {
 		// v flows into a phi of block blk over incoming edge k
@@ -240,8 +262,8 @@ func c01ReadyTable(e *Env, s *Sched, withReturn bool) {
 			return
 		}
 		if b, ok := ir.ConstBool(v); ok {
-			if !b {
-				return // cleared: always allowed
+			if b == inverted {
+				return // cleared (or, kept the other way round, raised): always allowed
 			}
 			r.Bad("isReady: accumulator set to true inside the loop", e.InstrPos(blk.Preds[k].Instrs[len(blk.Preds[k].Instrs)-1]),
 				"`ready` is set back to true inside the dependency loop, discarding the verdict of earlier dependencies")
@@ -312,6 +334,15 @@ func c01ReadyTable(e *Env, s *Sched, withReturn bool) {
 				continue
 			}
 			v = acc
+		}
+		if inverted {
+			if u, isU := v.(*ssa.UnOp); isU && u.Op == token.NOT && ir.Resolve(u.X) == ssa.Value(acc) {
+				v = acc
+			} else if v == ssa.Value(acc) {
+				v = rt.Results[0] // the raw `blocked` flag is not the verdict
+				r.Bad("isReady: return of a value other than the accumulator", pos, "isReady returns the `held back` flag itself instead of its negation")
+				continue
+			}
 		}
 		if v != acc {
 			r.Bad("isReady: return of a value other than the accumulator", pos,
@@ -717,6 +748,9 @@ func c01SingleLaunch(e *Env, s *Sched) {
 		callers := e.StaticCallSites(f)
 		for _, ci := range callers {
 			cf := ci.Parent()
+			if cf.Synthetic != "" && cf.Origin() == nil && cf.Parent() == nil {
+				continue // the compiler's pointer-receiver wrapper of a value method: not a caller of its own
+			}
 			sites = append(sites, site{cf, ci, f})
 			if !inR[cf] {
 				inR[cf] = true
